@@ -506,8 +506,10 @@ def r5_placeholders(ctx, sym, mod):
                    "enumeration) make ___ match only WILD and EXP-or-WILD consistently, VAR requires a non-underscore "
                    "second character; deep_find_match_Name and shallow_symbol_handler test VAR, EXP, WILD in the same "
                    "order")
+    # (the classifier may live in another pedal module and be imported under this name)
     fn = mod.func('_name_regex')
-    ctx.analysed_function(mod, fn)
+    fmod = fn._module
+    ctx.analysed_function(fmod, fn)
     # _name_regex executed abstractly; re.compile/match are the stdlib's own, applied to the literals found in pedal
     from ..fdeval import module_resolver
 
@@ -520,7 +522,7 @@ def r5_placeholders(ctx, sym, mod):
         o.attrs['method:fullmatch'] = lambda text: (Obj('match') if rx.fullmatch(text) else None)
         o.attrs['method:search'] = lambda text: (Obj('match') if rx.search(text) else None)
         return o
-    fd = FD(max_steps=10 ** 7, resolver=module_resolver(sym, mod))
+    fd = FD(max_steps=10 ** 7, resolver=module_resolver(sym, fmod))
     fd.calls['re.compile'] = re_compile
     fd.calls['re.match'] = lambda p, t, flags=0: (Obj('match') if re.match(p, t, flags) else None)
     keys = {}
@@ -560,7 +562,7 @@ def r5_placeholders(ctx, sym, mod):
                 bad.append((s, v, e, w))
             if e and not (s.startswith('__') and s.endswith('__') and len(s) >= 4):
                 bad.append((s, v, e, w))
-    ctx.check(not bad, 'R5', '_name_regex:classes', mod, fn,
+    ctx.check(not bad, 'R5', '_name_regex:classes', fmod, fn,
               "placeholder classes overlap or deviate: %s" % bad[:4],
               "an identifier like %r is treated as the wrong kind of placeholder" % (bad[0][0] if bad else ''),
               sample={'strings': n})
